@@ -55,14 +55,14 @@ be returned.** For a split request, arbitrary backends and any cancellation sche
   a possible error of the undisturbed request. -/
 theorem C20_cancel (cfg : Cfg) (o : Opts) (gs : List (ClusterId × List Uuid)) (cut : ClusterId → Option Nat)
     (hplan : plan cfg.localId cfg.maxItems o = .split gs) :
-    ((∀ g ∈ gs, affected cfg o cut g = false) → runCancel cfg o cut = run cfg o) ∧
-    (∀ items, (runCancel cfg o cut).out = .ok items → (run cfg o).out = .ok items) ∧
-    ((∃ g ∈ gs, affected cfg o cut g = true) → ∃ ss, (runCancel cfg o cut).out = .err ss) ∧
-    (ValidCut cfg o gs cut → ∀ ss, (runCancel cfg o cut).out = .err ss →
+    ((∀ g ∈ gs, affected cfg o cut g = false) → runCancel cfg o cut false = run cfg o) ∧
+    (∀ items, (runCancel cfg o cut false).out = .ok items → (run cfg o).out = .ok items) ∧
+    ((∃ g ∈ gs, affected cfg o cut g = true) → ∃ ss, (runCancel cfg o cut false).out = .err ss) ∧
+    (ValidCut cfg o gs cut → ∀ ss, (runCancel cfg o cut false).out = .err ss →
       ss ≠ [] ∧ ∀ s ∈ ss, (s = 404 ∨ s = 502) ∧
         (∃ g ∈ gs, affected cfg o cut g = false ∧ (runCluster cfg o g.1 g.2).stop = .failed s) ∧
         ∃ ss', (run cfg o).out = .err ss' ∧ s ∈ ss') := by
-  have hunf : runCancel cfg o cut =
+  have hunf : runCancel cfg o cut false =
       (if (gs.map (fun g => (g.1, runClusterCut cfg o g.1 g.2 (cut g.1)))).filterMap (fun r => r.2.stop.status?) = [] then
         ⟨.ok (mergePages ((gs.map (fun g => (g.1, runClusterCut cfg o g.1 g.2 (cut g.1)))).flatMap (fun r => r.2.pages))),
           (gs.map (fun g => (g.1, runClusterCut cfg o g.1 g.2 (cut g.1)))).map (fun r => (r.1, r.2.log))⟩
@@ -70,7 +70,7 @@ theorem C20_cancel (cfg : Cfg) (o : Opts) (gs : List (ClusterId × List Uuid)) (
         ⟨.err ((gs.filter (fun g => !affected cfg o cut g)).filterMap
           (fun g => (runCluster cfg o g.1 g.2).stop.status?)),
           (gs.map (fun g => (g.1, runClusterCut cfg o g.1 g.2 (cut g.1)))).map (fun r => (r.1, r.2.log))⟩) := by
-    unfold runCancel; rw [hplan]
+    unfold runCancel; rw [hplan]; simp
   -- an affected cluster makes the error list of the cut results non-empty
   have haff : (∃ g ∈ gs, affected cfg o cut g = true) →
       (gs.map (fun g => (g.1, runClusterCut cfg o g.1 g.2 (cut g.1)))).filterMap (fun r => r.2.stop.status?) ≠ [] := by
@@ -78,7 +78,7 @@ theorem C20_cancel (cfg : Cfg) (o : Opts) (gs : List (ClusterId × List Uuid)) (
     have := (errs_nil_iff _).mp hnil (g.1, runClusterCut cfg o g.1 g.2 (cut g.1)) (List.mem_map.mpr ⟨g, hg, rfl⟩)
     rw [runClusterCut_affected cfg o cut g ha] at this
     cases this
-  have hnone : (∀ g ∈ gs, affected cfg o cut g = false) → runCancel cfg o cut = run cfg o := by
+  have hnone : (∀ g ∈ gs, affected cfg o cut g = false) → runCancel cfg o cut false = run cfg o := by
     intro h
     have hflt : gs.filter (fun g => !affected cfg o cut g) = gs := by
       apply List.filter_eq_self.mpr; intro g hg; simp [h g hg]
@@ -162,6 +162,59 @@ theorem C20_cancel (cfg : Cfg) (o : Opts) (gs : List (ClusterId × List Uuid)) (
         split
         · rename_i hnil; rw [hnil] at hmem; cases hmem
         · exact ⟨_, rfl, hmem⟩
+
+/-- **The caller's context ends mid-request** (client disconnect, request timeout): every cluster still
+running when the cancellation reaches it fails, and so does the request — the outcome is an error
+(502 for such a cluster, or the genuine 404/502 of a cluster that failed by itself), never the pages
+merged so far. If the cancellation reaches no cluster, nothing changes. Arbitrary backends. -/
+theorem C20_caller_cancel (cfg : Cfg) (o : Opts) (gs : List (ClusterId × List Uuid)) (cut : ClusterId → Option Nat)
+    (hplan : plan cfg.localId cfg.maxItems o = .split gs) :
+    ((∀ g ∈ gs, affected cfg o cut g = false) → runCancel cfg o cut true = run cfg o) ∧
+    ((∃ g ∈ gs, affected cfg o cut g = true) →
+      ∃ ss, (runCancel cfg o cut true).out = .err ss ∧ 502 ∈ ss ∧ ∀ s ∈ ss, s = 404 ∨ s = 502) := by
+  have hunf : runCancel cfg o cut true =
+      (if (gs.map (fun g => (g.1, runClusterCut cfg o g.1 g.2 (cut g.1)))).filterMap (fun r => r.2.stop.status?) = [] then
+        ⟨.ok (mergePages ((gs.map (fun g => (g.1, runClusterCut cfg o g.1 g.2 (cut g.1)))).flatMap (fun r => r.2.pages))),
+          (gs.map (fun g => (g.1, runClusterCut cfg o g.1 g.2 (cut g.1)))).map (fun r => (r.1, r.2.log))⟩
+      else
+        ⟨.err ((gs.filter (fun g => !affected cfg o cut g)).filterMap
+            (fun g => (runCluster cfg o g.1 g.2).stop.status?) ++
+          (gs.filter (fun g => affected cfg o cut g)).map (fun _ => 502)),
+          (gs.map (fun g => (g.1, runClusterCut cfg o g.1 g.2 (cut g.1)))).map (fun r => (r.1, r.2.log))⟩) := by
+    unfold runCancel; rw [hplan]; simp
+  constructor
+  · intro h
+    have hflt : gs.filter (fun g => !affected cfg o cut g) = gs := by
+      apply List.filter_eq_self.mpr; intro g hg; simp [h g hg]
+    have hflt2 : gs.filter (fun g => affected cfg o cut g) = [] := by
+      apply List.filter_eq_nil_iff.mpr; intro g hg; simp [h g hg]
+    rw [hunf, cut_results cfg o gs cut h, hflt, hflt2, run_of_split cfg o _ hplan]
+    have : gs.filterMap (fun g => (runCluster cfg o g.1 g.2).stop.status?) =
+        (splitResults cfg o gs).filterMap (fun r => r.2.stop.status?) := by
+      simp [splitResults, List.filterMap_map, Function.comp_def]
+    rw [this]; simp
+  · rintro ⟨g, hg, ha⟩
+    have hne : (gs.map (fun g => (g.1, runClusterCut cfg o g.1 g.2 (cut g.1)))).filterMap
+        (fun r => r.2.stop.status?) ≠ [] := by
+      intro hnil
+      have := (errs_nil_iff _).mp hnil (g.1, runClusterCut cfg o g.1 g.2 (cut g.1)) (List.mem_map.mpr ⟨g, hg, rfl⟩)
+      rw [runClusterCut_affected cfg o cut g ha] at this
+      cases this
+    rw [hunf, if_neg hne]
+    refine ⟨_, rfl, ?_, ?_⟩
+    · apply List.mem_append.mpr; right
+      exact List.mem_map.mpr ⟨g, List.mem_filter.mpr ⟨hg, ha⟩, rfl⟩
+    · intro s hs
+      rcases List.mem_append.mp hs with hs | hs
+      · obtain ⟨g', hgf, hst⟩ := List.mem_filterMap.mp hs
+        cases hstop : (runCluster cfg o g'.1 g'.2).stop with
+        | done => rw [hstop] at hst; simp at hst
+        | failed s' =>
+          rw [hstop] at hst; simp at hst; subst hst
+          exact runCluster_failed cfg o g'.1 g'.2 s' hstop
+        | starved => exact absurd hstop (runCluster_not_starved cfg o g'.1 g'.2).1
+      · obtain ⟨_, _, rfl⟩ := List.mem_map.mp hs
+        exact Or.inr rfl
 
 /-! ### conn.go UserList with a LoginCluster -/
 
@@ -266,6 +319,13 @@ example : (run cCfg cOpts).out = .err [404] := by decide
 example : affected cCfg cOpts cCut ("bbbbb".toList, [cB1, cB2]) = true ∧
     affected cCfg cOpts cCut ("yyyyy".toList, [cY1]) = false := by decide
 -- the outcome is still the genuine 404, not bbbbb's late 502, and not a partial list
-example : (runCancel cCfg cOpts cCut).out = .err [404] := by decide
+example : (runCancel cCfg cOpts cCut false).out = .err [404] := by decide
+
+-- the caller's context ends while bbbbb (the only involved cluster, no failing one) is at its second call:
+-- the request fails with 502 and does not return object 1, which had been merged already
+example : runLogItems (run cCfg { cOpts with filters := [⟨sUuid, sIn, .slist [cB1, cB2]⟩] }) =
+    [⟨cB1, 1⟩, ⟨cB2, 2⟩] ∧
+    (runCancel cCfg { cOpts with filters := [⟨sUuid, sIn, .slist [cB1, cB2]⟩] } cCut true).out = .err [502] := by
+  decide
 
 end ArvVerif.C20
